@@ -6,7 +6,7 @@ from props import _family as F
 PROOF_MODULES = ['Jwt.Props.C15']
 PROP_MODULES = ['Jwt.Props.C15']
 PROP_FILES = ['Jwt/Props/C15.lean']
-GENERATED_FACT_THEOREMS = 0
+GENERATED_FACT_THEOREMS = 2
 CHECKER_CMD = "cd lean && lake build Jwt.Props.C15 && lake env lean <generated #print axioms file>"
 LEVEL_TEXT = ('Lean refinement of setter/getter/deleter to the abstract map Name -> Option Json: EXIST without change, overwrite/insert touching only the named member, typed get (value/NOEXIST/TYPE), delete one/all, whole-object merge (all members with replace, missing-only without) by induction over the document, INVALID refusals without change, and the invariant that the map stays a JSON object. Tied to the code by exhaustive one- and two-operation sequences (sampled for 2 in quick) over names {a,c,empty,NULL} x 16 typed values x replace on builder headers and claims and on the jwt_t inside callbacks, with a whole-object read-back after every step, judged by an independent Python typed map.')
 ASSUMPTIONS = F.COMMON_ASSUME + ["names and string values outside valid UTF-8 are excluded from the theorems' hypotheses (json_string refuses them); the excluded point is exercised by the suite as an observation"]
